@@ -74,11 +74,13 @@ pub fn spec(id: &str) -> Option<PropSpec> {
                 cs(&THRESH, "byzantine", 300, 4000, false),
                 cs(&THRESH, "subsets", 84, 84, true),
                 cs(&THRESH, "large", 10, 120, false),
+                cs(&THRESH, "extremes", 78, 156, true),
                 cs(&THRESH, "params", 2, 4, false),
             ],
             "cases = (scenario kind, group, scheme, t, n, subset size and order | fault-script length and schedule digest | share-verification (honest?, Byzantine mode)); \
              non-trivial = a proper subset / a run with at least one fault / a negative expectation; distinct by hash of that tuple. \
-             Class `subsets` enumerates every (group, scheme in {Basic, PoP}, 2<=t<=n<=7) with every subset of every size.",
+             Class `subsets` enumerates every (group, scheme in {Basic, PoP}, 2<=t<=n<=7) with every subset of every size. \
+             Class `extremes` enumerates n = 255 (thorough also 254) x every t in 2..=40 x group with exactly-t subsets made of one identifier at one end and t-1 crowded at the other end.",
             vec!["cur-blst"],
         )),
         "C01" => Some(base(
@@ -140,7 +142,7 @@ pub fn spec(id: &str) -> Option<PropSpec> {
             vec!["cur-blst"],
         )),
         "C12" => Some(base(
-            vec![cs(&CRYPT, "td-subsets", 60, 60, true), cs(&CRYPT, "td-protocol", 1500, 20000, false)],
+            vec![cs(&CRYPT, "td-subsets", 60, 60, true), cs(&CRYPT, "td-protocol", 1500, 20000, false), cs(&CRYPT, "td-extremes", 78, 156, true)],
             "cases = (group, ciphertext scheme, t, n, share subset and order | arrival history under loss/duplication/reordering) and every (share, key share, ciphertext) mismatch; class `td-subsets` enumerates 2<=t<=n<=5 x 3 schemes x 2 groups with every subset; non-trivial = proper subsets, mismatches",
             vec!["cur-blst"],
         )),
@@ -150,7 +152,7 @@ pub fn spec(id: &str) -> Option<PropSpec> {
             vec!["cur-blst"],
         )),
         "C14" => Some(base(
-            vec![cs(&CRYPT, "eg-tally", 1500, 20000, false), cs(&CRYPT, "eg-proof-tamper", 2400, 32000, false)],
+            vec![cs(&CRYPT, "eg-tally", 1500, 20000, false), cs(&CRYPT, "eg-extremes", 78, 156, true), cs(&CRYPT, "eg-proof-tamper", 2400, 32000, false)],
             "cases = (group, number of voters, which ballots arrived in which order under loss/duplication/delay, fault-script length) with conservation oracle, threshold share subset; proof perturbation kind over (c1, c2, message_proof, blinder_proof, challenge, pk); non-trivial = sums of >1 ciphertext, runs with faults, all altered proofs",
             vec!["cur-blst"],
         )),
